@@ -140,6 +140,8 @@ def redact_spec():
         lines.append('    @%s' % nm)
         lines.append('alias Ali%s = Plainstr' % nm)      # alias of an unredacted alias, redacted itself
         lines.append('    @%s' % nm)
+        lines.append('alias Qst%s = String?' % nm)       # redacted alias whose target is nullable
+        lines.append('    @%s' % nm)
     lines.append('alias Plainstr = String')
     lines.append('')
     lines.append('struct Base')
@@ -161,10 +163,12 @@ def redact_spec():
             lines.append('        @%s' % nm)
             fields.append((fname, ttext, kind, rx, 'own'))
     for nm, ctor, kind, rx in REDACTORS:
-        for base in ('Str', 'Num', 'Lst', 'Ali'):
+        for base in ('Str', 'Num', 'Lst', 'Ali', 'Qst'):
             for ukey, upat in ALIAS_USES:
                 if base == 'Lst' and ukey in ('deep',):
                     continue
+                if base == 'Qst' and ukey in ('q', 'deep'):
+                    continue            # a nullable alias cannot be made nullable again
                 fname = 'a_%s_%s_%s' % (base.lower(), ukey, nm.lower())
                 ttext = upat % (base + nm)
                 lines.append('    %s %s' % (fname, ttext))
